@@ -186,26 +186,29 @@ func sameState(a, b nstate) bool {
 }
 
 type nilAnalysis struct {
-	p         *Program
-	scope     map[*ssa.Function]bool
-	mayNilRet map[*ssa.Function]bool
-	assumed   map[string]string
-	usedAssum map[string]bool
-	pinned    map[string]bool // "<function name>/<ssa name>": facts about this value are kept although it is dead
-	validated bool
-	inLoader  bool // while loading, the closure of type names has not been checked yet
-	entry     map[*ssa.Function]map[*ssa.BasicBlock]nstate // memo: state at block entry
-	inProg    map[*ssa.Function]bool
+	p          *Program
+	scope      map[*ssa.Function]bool
+	mayNilRet  map[*ssa.Function]bool
+	assumed    map[string]string
+	usedAssum  map[string]bool
+	pinned     map[string]bool // "<function name>/<ssa name>": facts about this value are kept although it is dead
+	validated  bool
+	inLoader   bool                                         // while loading, the closure of type names has not been checked yet
+	entry      map[*ssa.Function]map[*ssa.BasicBlock]nstate // memo: state at block entry
+	inProg     map[*ssa.Function]bool
 	nonNilMaps map[string]bool // Schema map fields whose stored values are never nil
-	lifted    map[*ssa.Function][]liftedReq
-	callers   map[*ssa.Function][]ssa.CallInstruction
-	asValue   map[*ssa.Function]bool
+	lifted     map[*ssa.Function][]liftedReq
+	callers    map[*ssa.Function][]ssa.CallInstruction
+	asValue    map[*ssa.Function]bool
 	// hooks for client analyses that ride on the same disjunctive dataflow (reflect typestate)
-	hookRefine   func(d disj, c Cond) (disj, bool)
-	hookTransfer func(st nstate, in ssa.Instruction) nstate
-	hookPhi      func(n disj, d disj, ph *ssa.Phi, edge ssa.Value)
-	hookEntry    func(fn *ssa.Function, d disj)
-	curFn        *ssa.Function
+	hookRefine func(d disj, c Cond) (disj, bool)
+	// hookPredicate: the condition is a call of a side-effect-free helper predicate; returns one refined state per path
+	// through the helper that yields the wanted outcome
+	hookPredicate func(d disj, c Cond) ([]disj, bool)
+	hookTransfer  func(st nstate, in ssa.Instruction) nstate
+	hookPhi       func(n disj, d disj, ph *ssa.Phi, edge ssa.Value)
+	hookEntry     func(fn *ssa.Function, d disj)
+	curFn         *ssa.Function
 }
 
 // liftedReq: callee requires nonnil(param idx + suffix) at entry.
@@ -435,6 +438,19 @@ func (a *nilAnalysis) possiblyNil(v ssa.Value, seen map[ssa.Value]bool) string {
 		}
 	}
 	return ""
+}
+
+// refineMulti is refine for a branch: a condition that is a call of a helper predicate splits into the helper's paths.
+func (a *nilAnalysis) refineMulti(d disj, cond ssa.Value, truth bool) []disj {
+	if a.hookPredicate != nil {
+		if ns, handled := a.hookPredicate(d, normCond(Cond{V: cond, True: truth})); handled {
+			return ns
+		}
+	}
+	if n := a.refine(d, cond, truth); n != nil {
+		return []disj{n}
+	}
+	return nil
 }
 
 // refine applies `cond == truth` to d; returns nil on contradiction.
@@ -752,12 +768,12 @@ func (a *nilAnalysis) analyse(fn *ssa.Function) map[*ssa.BasicBlock]nstate {
 								n["b:"+ph.Name()] = 0
 							}
 						} else if _, isPhi := ev.(*ssa.Phi); !isPhi {
-							if t := a.refine(n, ev, true); t != nil {
+							for _, t := range a.refineMulti(n, ev, true) {
 								t = t.clone()
 								t["b:"+ph.Name()] = 1
 								next = append(next, t)
 							}
-							if f := a.refine(n, ev, false); f != nil {
+							for _, f := range a.refineMulti(n, ev, false) {
 								f = f.clone()
 								f["b:"+ph.Name()] = 0
 								next = append(next, f)
@@ -788,12 +804,8 @@ func (a *nilAnalysis) analyse(fn *ssa.Function) map[*ssa.BasicBlock]nstate {
 		if ifi, ok := b.Instrs[len(b.Instrs)-1].(*ssa.If); ok && len(b.Succs) == 2 {
 			var t, f nstate
 			for _, d := range st {
-				if n := a.refine(d, ifi.Cond, true); n != nil {
-					t = append(t, n)
-				}
-				if n := a.refine(d, ifi.Cond, false); n != nil {
-					f = append(f, n)
-				}
+				t = append(t, a.refineMulti(d, ifi.Cond, true)...)
+				f = append(f, a.refineMulti(d, ifi.Cond, false)...)
 			}
 			if len(t) > 0 {
 				propagate(b.Succs[0], t)
